@@ -27,9 +27,9 @@ Record tnode := { tn_from : nat; tn_to : nat; tn_printed : string }.
 
 Definition extent (n : tnode) : nat := tn_to n - tn_from n.
 
-(* `(from >= 0 && from < len(src)) && (to >= 0 && to <= len(src))`; src is empty when the file cannot be read *)
+(* `(from >= 0 && from < len(src)) && (to >= from && to <= len(src))`; src is empty when the file cannot be read *)
 Definition in_file (file : string) (n : tnode) : bool :=
-  (tn_from n <? String.length file)%nat && (tn_to n <=? String.length file)%nat.
+  (tn_from n <? String.length file)%nat && (tn_from n <=? tn_to n)%nat && (tn_to n <=? String.length file)%nat.
 
 Definition node_text (file : string) (n : tnode) : string :=
   if in_file file n then substring (tn_from n) (extent n) file else tn_printed n.
@@ -45,10 +45,11 @@ Qed.
 
 (* on a file whose bytes can be read back the Text of a capture has the length of its extent ... *)
 Theorem node_text_length_readable file n :
-  in_file file n = true -> (tn_from n <= tn_to n)%nat -> String.length (node_text file n) = extent n.
+  in_file file n = true -> String.length (node_text file n) = extent n.
 Proof.
-  intros Hin Hle. unfold node_text. rewrite Hin. apply substring_length.
-  unfold in_file in Hin. apply andb_prop in Hin. destruct Hin as [_ H2]. apply Nat.leb_le in H2. unfold extent. lia.
+  intros Hin. unfold node_text. rewrite Hin. apply substring_length.
+  unfold in_file in Hin. apply andb_prop in Hin. destruct Hin as [Hin H2]. apply andb_prop in Hin. destruct Hin as [_ H1].
+  apply Nat.leb_le in H1, H2. unfold extent. lia.
 Qed.
 
 (* ... and on any other file it is what the printer makes of the node, whatever the extent *)
@@ -63,11 +64,11 @@ Definition eq_by_extent (file : string) (n : tnode) (c : string) : bool :=
   if Nat.eqb (extent n) (String.length c) then String.eqb (node_text file n) c else false.
 
 Theorem eq_by_extent_sound_readable file n c :
-  in_file file n = true -> (tn_from n <= tn_to n)%nat -> eq_by_extent file n c = String.eqb (node_text file n) c.
+  in_file file n = true -> eq_by_extent file n c = String.eqb (node_text file n) c.
 Proof.
-  intros Hin Hle. unfold eq_by_extent. destruct (Nat.eqb (extent n) (String.length c)) eqn:E; [reflexivity|].
+  intros Hin. unfold eq_by_extent. destruct (Nat.eqb (extent n) (String.length c)) eqn:E; [reflexivity|].
   apply Nat.eqb_neq in E. destruct (String.eqb (node_text file n) c) eqn:E2; [|reflexivity].
-  apply eqb_same_length in E2. rewrite (node_text_length_readable file n Hin Hle) in E2. contradiction.
+  apply eqb_same_length in E2. rewrite (node_text_length_readable file n Hin) in E2. contradiction.
 Qed.
 
 (* the shortcut is unsound as soon as the bytes cannot be read back: `sink(g( 1,2 ))` analysed from memory *)
@@ -464,7 +465,7 @@ Local Close Scope N_scope.
 Definition macro_int_params_okb (base bits : Z) : bool := Z.eqb base 0 && Z.eqb bits 64.
 
 Definition doc_value_sources : list (string * string) := [
-  ("rulesRunner.nodeText", "func(n ast.Node) []byte :: if isAbsentNode(n) { return nil } ;; from := rr.ctx.Fset.Position(n.Pos()).Offset ;; to := rr.ctx.Fset.Position(n.End()).Offset ;; src := rr.fileBytes() ;; if (from >= 0 && from < len(src)) && (to >= 0 && to <= len(src)) { return src[from:to] } ;; if n, ok := n.(*ast.Comment); ok { return []byte(n.Text) } ;; // Fallback to the printer. var buf bytes.Buffer ;; if err := rr.printNode(&buf, n); err != nil { panic(err) } ;; return buf.Bytes()");
+  ("rulesRunner.nodeText", "func(n ast.Node) []byte :: if isAbsentNode(n) { return nil } ;; from := rr.ctx.Fset.Position(n.Pos()).Offset ;; to := rr.ctx.Fset.Position(n.End()).Offset ;; src := rr.fileBytes() ;; if (from >= 0 && from < len(src)) && (to >= from && to <= len(src)) { return src[from:to] } ;; if n, ok := n.(*ast.Comment); ok { return []byte(n.Text) } ;; // Fallback to the printer. var buf bytes.Buffer ;; if err := rr.printNode(&buf, n); err != nil { panic(err) } ;; return buf.Bytes()");
   ("rulesRunner.fileBytes", "func() []byte :: if rr.src != nil { return rr.src } ;; src, err := os.ReadFile(rr.filename) ;; if err != nil || src == nil { rr.src = make([]byte, 0) } else { rr.src = src } ;; return rr.src");
   ("rulesRunner.printNode", "func(buf *bytes.Buffer, n ast.Node) error :: switch n := n.(type) { case *gogrep.NodeSlice: sep := "", "" switch n.Kind { case gogrep.StmtNodeSlice, gogrep.SpecNodeSlice, gogrep.DeclNodeSlice: sep = ""\n"" } for i := 0; i < n.Len(); i++ { if i != 0 { buf.WriteString(sep) } if err := rr.printNode(buf, n.At(i)); err != nil { return err } } return nil case *ast.FieldList: if n.Opening.IsValid() { buf.WriteByte('(') } for i, field := range n.List { if i != 0 { buf.WriteString("", "") } if err := rr.printNode(buf, field); err != nil { return err } } if n.Closing.IsValid() { buf.WriteByte(')') } return nil case *ast.Field: for i, name := range n.Names { if i != 0 { buf.WriteString("", "") } buf.WriteString(name.Name) } if n.Type != nil { if len(n.Names) != 0 { buf.WriteByte(' ') } if err := printer.Fprint(buf, rr.ctx.Fset, n.Type); err != nil { return err } } if n.Tag != nil { buf.WriteByte(' ') buf.WriteString(n.Tag.Value) } return nil } ;; return printer.Fprint(buf, rr.ctx.Fset, n)");
   ("filterParams.nodeText", "runner.go: rr.filterParams.nodeText = rr.nodeText");
